@@ -219,7 +219,7 @@ def probe_fields(st):
         if after != exp and len(rec['post_violations']) < 20:
             rec['post_violations'].append({'before': before, 'after': after, 'size': bit_size, 'aligned': byte_aligned})
         if depth[0] == 1:
-            cur.append([int(value), bit_size, bool(byte_aligned), endian])
+            cur.append([int(value), bit_size, bool(byte_aligned), endian, self._bytes])
         return r
 
     def get_bytes(self, label_scope, instruction_address, instruction_size):
@@ -231,8 +231,10 @@ def probe_fields(st):
         finally:
             depth[0] -= 1
         if depth[0] == 0 and len(rec['instructions']) < 300:
+            # appends made on other PackedBits objects (composite operand codes) are not fields of this instruction
+            mine = [c[:4] for c in cur if r is None or c[4] is r]
             rec['instructions'].append({'line': getattr(self.line_id, 'line_num', None), 'addr': instruction_address,
-                                        'fields': list(cur), 'bytes': None if r is None else bytes(r).hex()})
+                                        'fields': mine, 'bytes': None if r is None else bytes(r).hex()})
         return r
     PackedBits.append_bits = append_bits
     assembled.AssembledInstruction.get_bytes = get_bytes
